@@ -1,5 +1,6 @@
 import PQ.Model.Ops
 import PQ.Model.Crash
+import PQ.Model.CrashCb
 /-!
 # Line-protocol driver (mirror mode)
 
@@ -690,6 +691,35 @@ def execCrash (st : St) (k : Nat) (op : String) : Pm (Except String (Option (Kin
         if pq then fin (Crash.MaxQ.appendF k s o0) else fin (Crash.DQ.appendF k s o0)
   | _ => throw s!"crash mirror: unsupported operation {op}"
 
+/-- C10 mirror, callback fuses: run `op` on the callback crash model (`Model/CrashCb.lean`) with the `k`-th user callback
+(setter / predicate / source-iterator `next`) of the operation panicking on entry; `none` = the operation performs fewer
+callbacks. -/
+def execCrashCb (st : St) (k : Nat) (op : String) : Pm (Except String (Option (Kind × Store Int))) := do
+  let q : Q Int := { kind := st.kind, s := st.s }
+  let fin (r : Crash.CRQ Int (Q Int × Out Int)) : Except String (Option (Kind × Store Int)) :=
+    match r with
+    | .ok _ => .ok none
+    | .error (.crashed q') => .ok (some (q'.kind, q'.s))
+    | .error .crashedNew => .ok (some (st.kind, st.s))
+    | .error (.fault f) => .error s!"model fault {showFaultSite f} inside an operation with a panicking callback"
+  match op with
+  | "change_priority_by" =>
+    let key ← nat; let p ← int
+    pure <| fin (Crash.stepCb k q (.changePriorityBy key (fun _ => p)))
+  | "pop_if" | "pop_min_if" | "pop_max_if" =>
+    let w ← writeP; let ret ← flag
+    let f : Item → Int → Bool × Item × Int := fun it p =>
+      (ret, (match w.payload with | some pl => { it with payload := pl } | none => it),
+        (match w.prio with | some q => q | none => p))
+    pure <| fin (Crash.stepCb k q (if op == "pop_max_if" then .popBackIf f else .popFrontIf f))
+  | "extend" =>
+    let lo ← nat; let _hi ← optNat; let xs ← entries
+    pure <| fin (Crash.stepCb k q (.extend lo xs))
+  | "from_iter" =>
+    let _lo ← nat; let _hi ← optNat; let xs ← entries
+    pure <| fin (Crash.stepCb k q (.fromIter xs))
+  | _ => throw s!"callback crash mirror: unsupported operation {op}"
+
 /-- ops whose comparisons are performed on a consumed copy: the harness counts them, the model's state does not change -/
 def copyOpTicks (st : St) (op : String) (args : List String) : Nat :=
   let s := st.s
@@ -729,10 +759,11 @@ def runLine (st : St) (lhs : List String) : Except String (St × String) :=
   match lhs with
   | [] => .error "empty line"
   | op :: args =>
-    if op.startsWith "!cmp" && (match args with | inner :: _ => !inner.startsWith "!" | [] => false) then
-      match (op.drop 4).toString.toNat?, args with
+    if (op.startsWith "!cmp" || op.startsWith "!cb") && (match args with | inner :: _ => !inner.startsWith "!" | [] => false) then
+      let isCb := op.startsWith "!cb"
+      match (op.drop (if isCb then 3 else 4)).toString.toNat?, args with
       | some k, inner :: rest =>
-        match (execCrash st k inner).run rest with
+        match ((if isCb then execCrashCb st k inner else execCrash st k inner)).run rest with
         | .error e => .error e
         | .ok (r, left) =>
           if !left.isEmpty then .error s!"trailing tokens after {inner}: {left}"
